@@ -38,7 +38,8 @@ def canon(text):
 def compile_job(a):
     work, name, src, scope, lang, seed, sy, uy = a
     r = compilelib.compile_source(work, name, src, scope, lang, db_namespace=("ns" + scope[0]) if lang == "arduino" else None,
-                                  hashseed=seed, tz_version="c20", start_year=sy, until_year=uy)
+                                  hashseed=seed, tz_version="c20", start_year=sy, until_year=uy,
+                                  extra_args=["--generate_zone_strings"] if (lang == "arduino" and name.startswith("seconds")) else ())
     r["hashseed"] = seed
     return name, r
 
@@ -173,6 +174,37 @@ def run(ctx):
                 emitted = sorted(tz["zones_map"])
                 if lang == "arduino":
                     emitted_by_scope[scope] = (emitted, tz, a["outdir"])
+                # R3b the string collections: tzdb.json's zone_strings are exactly the emitted zone names and its format_strings
+                # exactly the FORMAT / LETTER strings in use; with --generate_zone_strings the two C++ arrays say the same
+                zs_ = sorted(tz.get("zone_strings", {}).get("ordered_map", {}))
+                ctx.evaluations += 1
+                nt.add((label, scope, lang, "R3b"))
+                if zs_ != emitted:
+                    ctx.violation("R3b-zone_strings:%s:%s" % (scope, lang), {"artifact": tag, "zone_strings": zs_[:5], "emitted": emitted[:5]},
+                                  "%s: tzdb.json zone_strings %s... are not the emitted zone names %s..." % (tag, zs_[:3], emitted[:3]))
+                fmts_ = set(tz.get("format_strings", {}).get("ordered_map", {}))
+                used_ = set()
+                for eras_ in tz["zones_map"].values():
+                    for e_ in eras_:
+                        used_.add(e_["format"].replace("%s", "%"))
+                for rules_ in tz["rules_map"].values():
+                    for r_ in rules_:
+                        if len(r_["letter"]) > 1:
+                            used_.add(r_["letter"])
+                if not used_ <= fmts_:      # (a FORMAT may coincide with a zone name, e.g. CET, so no disjointness is required)
+                    ctx.violation("R3b-format_strings:%s:%s" % (scope, lang), {"artifact": tag, "missing": sorted(used_ - fmts_)[:5]},
+                                  "%s: tzdb.json format_strings lack %s" % (tag, sorted(used_ - fmts_)[:5]))
+                zsc_ = os.path.join(a["outdir"], "zone_strings.cpp")
+                if os.path.exists(zsc_):
+                    txt_ = open(zsc_).read()
+                    blocks_ = re.findall(r"// numStrings: (\d+)\n(?://[^\n]*\n)*const char\* const (k\w+)\[\] = \{(.*?)\};", txt_, re.S)
+                    for n_, arr_, body_ in blocks_:
+                        items_ = re.findall(r'\*/ "([^"]*)"', body_)
+                        count_check(ctx, tag, "zone_strings.cpp %s numStrings" % arr_, int(n_), len(items_))
+                        if arr_ == "kZoneStrings" and sorted(items_) != emitted:
+                            ctx.violation("R3b-kZoneStrings:%s" % scope, {"artifact": tag, "items": items_[:5]}, "%s: kZoneStrings[] %s... are not the emitted zone names" % (tag, items_[:3]))
+                        if arr_ == "kFormats" and not used_ <= set(items_):
+                            ctx.violation("R3b-kFormats:%s" % scope, {"artifact": tag, "items": items_[:5]}, "%s: kFormats[] lacks %s" % (tag, sorted(used_ - set(items_))[:5]))
                 # R3 zones.txt
                 names = [l.strip() for l in open(os.path.join(a["outdir"], "zones.txt")) if l.strip() and not l.startswith("#")]
                 ctx.evaluations += 1
